@@ -23,7 +23,7 @@ func init() {
 		Technique: "reference-model + differential monitors on trees with forced (nested) multi-cause nodes: Is/IsAny = self-match or disjunction over branches; As = first match in branch order (object identity); Unwrap family treats them as leaves; Join nil handling; branch count/order/content across knowing and unknowing hops; one %+v entry per layer",
 		Rule: "per case a tree with >=1 multi-cause node (Join, stdlib Join, fmt.Errorf with two %w, registered and unregistered user multi-cause types) at random depth, nested, with branches that are wrapped chains, under wrappers and as barrier payload (pairwise sweep first). " +
 			"Stages: local, hop1, hop2, unknowing receiver (arity/order only), unknowing-then-knowing. Non-trivial = >=2 multi-cause nodes or a branch of depth>=2; distinct = kind-tree signature.",
-		Cases: func(t string) int { return gen.SweepSize() + tierN(2500, 250000)(t) },
+		Cases: func(t string) int { return gen.SweepSize() + tierN(2000, 60000)(t) },
 		Floor: tierN(500, 5000),
 		Run:   runC13,
 		Assumptions: []string{"marks from the model's family table; the origin's observation is the oracle across hops"},
